@@ -2,7 +2,8 @@
 //!
 //! `vx slice <file.rs> <spec.json>`; spec = {"items": [ {"id": .., "fn": <function name>,
 //! "let": <binding name>} | {"id": .., "fn": .., "for_over": <flat text prefix of the iterated
-//! expression>, "with_preceding_lets": [names]} | {"id": .., "enum": <name>} ], "overlay": {id: overlay}}
+//! expression>, "with_preceding_lets": [names]} | {"id": .., "fn": .., "stmt_prefix": <flat text prefix of
+//! one statement in any block>} | {"id": .., "enum": <name>} ], "overlay": {id: overlay}}
 //! Each slice is printed token-for-token as it stands in the file (pretty-printed), with only the
 //! annotation overlay spliced in.
 use crate::pp;
@@ -120,6 +121,17 @@ pub fn slice(src: &str, spec_path: &str) -> Value {
                             v.push(n.clone());
                         }
                         picked.push(v);
+                    }
+                }
+            }
+        } else if let Some(prefix) = item.get("stmt_prefix").and_then(|v| v.as_str()) {
+            // any single statement, in any block of the function, whose flat text starts with the prefix
+            let needle = item.get("must_contain").and_then(|v| v.as_str()).unwrap_or("");
+            for l in &sl.lists {
+                for s in l.iter() {
+                    let ft = flat(s);
+                    if ft.starts_with(prefix) && ft.contains(needle) {
+                        picked.push(vec![s.clone()]);
                     }
                 }
             }
